@@ -31,7 +31,7 @@ func init() {
 		ID:           "C18",
 		Run:          Run,
 		MaxSteps:     200000,
-		QuickRuns:    3000,
+		QuickRuns:    8000,
 		ThoroughSecs: 600,
 		Rule: "one run = one generated configuration document of one class: invalid (exactly one documented invariant violated, from a catalogue of " +
 			"key lengths, SS2022 NAT timeout below the replay window, MTU below 1280, batch sizes and channel capacity out of range, dangling client/resolver/set/server/group-member " +
